@@ -173,6 +173,43 @@ theorem extend_exact_strict_agrees (base B : Doc) (hb : NoExt base) (hB : PureEx
   cases hr'
   exact hd
 
+/-! ### the function the correspondence runs (`buildThenExtend`, driver op `extend`) -/
+
+private theorem map_mergeExt_nil (l : List TypeDef) : l.map (mergeExt []) = l := by
+  induction l with
+  | nil => rfl
+  | cons t ts ih => simp only [List.map_cons, ih]; rfl
+
+/-- for a base document without extension blocks, `buildThenExtend` is `extend_schema` applied to the schema of the
+    first pass, with the definitions of the document as the by-name view of its types -/
+theorem buildThenExtend_noext (A B : Doc) (strict : Bool) (hA : NoExt A) (env : Env) (live : Live)
+    (h : buildIgnoringExtensions A [] = .ok (env, live)) :
+    buildThenExtend A B strict = .ok ((extendSchemaPublic (typeDefs A) (directiveDefs A) live B strict).map toSchemaD) := by
+  unfold buildIgnoringExtensions at h
+  obtain ⟨c, hc, hcol⟩ := bind_ok _ _ _ h
+  obtain ⟨hct, hcd⟩ := collect_exact A c hc
+  have hx : extendSchema env live A [] = .ok live := by
+    unfold extendSchema
+    simp [typeExtensions_noext live A hA.1, hA.2, pure, Except.pure]
+  unfold buildThenExtend
+  simp only [hc, hcol, hx, bind, Except.bind, pure, Except.pure, typeExtensions_noext live A hA.1, map_mergeExt_nil, hct, hcd]
+  rfl
+
+/-- **what the driver computes for `extend_schema(build_schema(A), B, strict=False)` is what it computes for
+    `build_schema(A ++ B)`** (A without extension blocks, B a pure extension document) -/
+theorem buildThenExtend_eq_build (A B : Doc) (hA : NoExt A) (hB : PureExt B) (env : Env) (live : Live)
+    (h : buildIgnoringExtensions A [] = .ok (env, live)) (s : SchemaD) :
+    buildThenExtend A B false = .ok (.ok s) ↔ build (A ++ B) = .ok s := by
+  rw [buildThenExtend_noext A B false hA env live h, extend_eq_build A B hA hB env live h s]
+  constructor
+  · intro hh
+    have := ok_inj hh
+    cases hr : extendSchemaPublic (typeDefs A) (directiveDefs A) live B false with
+    | error e => rw [hr] at this; cases this
+    | ok r => rw [hr] at this; exact ⟨r, rfl, ok_inj this⟩
+  · rintro ⟨r, hr, rfl⟩
+    rw [hr]; rfl
+
 /-! ### non-vacuity: `extDoc` split into its definitions and its extension blocks -/
 
 def extBase : Doc := [.type exQuery, .type { kind := .enum, name := "E", values := [{ name := "A" }] },
